@@ -30,7 +30,7 @@ REQUIRED_COUNTERS = ["forward_equal_checks", "logqp_forward_checks", "gradient_l
                      "neural_reference_ladders", "selectivity_cases", "pairs_ito", "pairs_stratonovich",
                      "forward_list_ts_under_default_f32", "forward_equal_adaptive_checks",
                      "adjoint_adaptive_gradients", "forward_with_adjoint_adaptive_requested",
-                     "neural_logqp_ladders"]
+                     "neural_logqp_ladders", "extra_state_loss_cases"]
 THRESHOLDS = {"slope": 0.2, "final_half": 0.15, "final_one": 0.05, "final_over_first": 0.5, "already_small": 2e-3}
 
 ITO_FWD = ["euler", "milstein", "srk"]
@@ -74,7 +74,7 @@ def cases(tier, seed):
             out.append({"key": f"neural-logqp-{st[:5]}-{nt}", "kind": "neural", "sde_type": st, "noise_type": nt,
                         "logqp": True, "rseed": hash((seed, 4343, st == "ito", zoo.NOISE_TYPES.index(nt))) % (2 ** 31),
                         "cost": 12})
-    for i in range(8 if tier == "quick" else 200):
+    for i in range(16 if tier == "quick" else 200):
         out.append({"key": f"select-{i}", "kind": "select", "rseed": hash((seed, 777, i)) % (2 ** 31), "cost": 1})
     return out
 
@@ -367,7 +367,33 @@ def run_select(case):
     nt = rng.choice(zoo.NOISE_TYPES)
     sde = zoo.NeuralSDE(2, 2, nt, st, seed=rng.randrange(10 ** 6), gscale=0.5)
     named = list(sde.named_parameters())
-    scenario = rng.choice(["subset", "frozen", "default", "y0_no_grad", "empty", "empty_list", "renamed"])
+    scenarios = ["subset", "frozen", "default", "y0_no_grad", "empty", "empty_list", "renamed", "extra_state_loss"]
+    rng.choice(scenarios)  # (keeps the random stream of earlier versions)
+    scenario = scenarios[int(case["key"].split("-")[1]) % len(scenarios)]  # every scenario in every tier
+    if scenario == "extra_state_loss":
+        # the returned extra solver state is an output too: a loss that reads it (reversible Heun pair, extra=True)
+        # must give the gradients backprop through sdeint gives
+        sde = zoo.NeuralSDE(2, 2, nt, "stratonovich", seed=rng.randrange(10 ** 6), gscale=0.5)
+        y0v = torch.randn(2, 2, generator=torch.Generator().manual_seed(case["rseed"]))
+        ent = rng.randrange(1, 10 ** 9)
+        gs = []
+        for fn, kw2 in ((torchsde.sdeint, {}), (torchsde.sdeint_adjoint, {"adjoint_method": "adjoint_reversible_heun"})):
+            for p in sde.parameters():
+                p.grad = None
+            y0 = y0v.clone().requires_grad_(True)
+            bm = torchsde.BrownianInterval(0.0, 0.5, size=(2, sde.m), entropy=ent)
+            ys, (f_, g_, z_) = fn(sde, y0, torch.tensor([0.0, 0.25, 0.5]), bm=bm, method="reversible_heun", dt=0.125,
+                                  extra=True, **kw2)
+            (z_.sum() + 0.5 * (f_ ** 2).sum() + (g_ * g_).sum() * 0.3).backward()
+            gs.append(torch.cat([y0.grad.flatten()] + [(p.grad if p.grad is not None else torch.zeros_like(p)).flatten()
+                                                       for p in sde.parameters()]))
+        rel = float((gs[0] - gs[1]).norm() / gs[0].norm())
+        viol = []
+        if not rel <= 1e-8:
+            viol.append({"mechanism": "gradient_of_loss_on_returned_extra_state_wrong",
+                         "detail": f"adjoint vs backprop rel {rel:.3e} noise={nt} (loss reads the returned f, g, z)"})
+        return {"violations": viol, "counters": {"selectivity_cases": 1, "extra_state_loss_cases": 1}, "max": {},
+                "nontrivial": True, "sample": {"scenario": scenario, "rel": rel}}
     y0 = torch.randn(2, 2, generator=torch.Generator().manual_seed(case["rseed"]))
     kw = {}
     expect = set()
